@@ -615,7 +615,12 @@ def check_bodies():
     ]
     for raw in cases:
         m = email.message_from_bytes(raw)
-        got, want = mbox.get_body_content(m), ref(m)
+        want = ref(m)
+        try:
+            got = mbox.get_body_content(m)
+        except Exception as e:  # noqa
+            return {"target": "mbox_email_extractor.py::get_body_content", "inputs": {"message": raw.decode("latin-1")}, "expected": want,
+                    "observed": f"{type(e).__name__}: {e}"}
         if tuple(got) != want:
             return {"target": "mbox_email_extractor.py::get_body_content", "inputs": {"message": raw.decode("latin-1")}, "expected": want, "observed": tuple(got)}
     return None
@@ -666,6 +671,43 @@ def check_msg_fixture():
         r = res[0]
         if r.subject != (mo.subject or "").strip() or r.metadata.message_id != mo.message_id:
             return {"target": "msg_email_extractor.py::read_msg_format_mail", "inputs": {"file": p}, "expected": (mo.subject, mo.message_id), "observed": (r.subject, r.metadata.message_id)}
+    return None
+
+
+def check_msg_mapping():
+    """read_msg_format_mail with a stub MsOxMessage carrying distinct property values (over a real .msg file so that the OLE
+    side works): every field of the result comes from its own property."""
+    from sharepoint2text.parsing.extractors.mail import msg_email_extractor as msg
+    p = os.path.join(REPO, "sharepoint2text/tests/resources/mails/basic_email.msg")
+    if not os.path.exists(p):
+        return None
+    data = open(p, "rb").read()
+    for body, want_plain, want_html in (("plain body text", "plain body text", ""), ("<html><body><p>html body</p></body></html>", None, "<html><body><p>html body</p></body></html>")):
+        class Stub:
+            def __init__(self, stream):
+                self.subject, self.message_id, self.sent_date = "  the subject ", "<mid@x.org>", "Mon, 01 Jan 2024 10:00:00 +0200"
+                self.sender, self.to, self.cc, self.bcc, self.reply_to = "S <s@x.org>", "A <a@x.org>; A2 <a2@x.org>", "C <c@x.org>", "B <b@x.org>", "R <r@x.org>"
+                self.body = body
+        real = msg.MsOxMessage
+        msg.MsOxMessage = Stub
+        try:
+            res = list(msg.read_msg_format_mail(io.BytesIO(data)))
+        except Exception as e:  # noqa
+            return {"target": "msg_email_extractor.py::read_msg_format_mail", "inputs": {"stub body": body}, "expected": "one result", "observed": f"{type(e).__name__}: {e} cause={e.__cause__!r}"}
+        finally:
+            msg.MsOxMessage = real
+        if len(res) != 1:
+            return {"target": "msg_email_extractor.py::read_msg_format_mail", "inputs": {"stub body": body}, "expected": 1, "observed": len(res)}
+        r = res[0]
+        got = {"subject": r.subject, "message_id": r.metadata.message_id, "date": r.metadata.date, "from": (r.from_email.name, r.from_email.address),
+               "to": _addr_list(r.to_emails), "cc": _addr_list(r.to_cc), "bcc": _addr_list(r.to_bcc), "html": r.body_html}
+        want = {"subject": "the subject", "message_id": "<mid@x.org>", "date": "2024-01-01T10:00:00+02:00", "from": ("S", "s@x.org"),
+                "to": [("A", "a@x.org"), ("A2", "a2@x.org")], "cc": [("C", "c@x.org")], "bcc": [("B", "b@x.org")], "html": want_html}
+        if want_plain is not None:
+            got["plain"], want["plain"] = r.body_plain, want_plain
+        if got != want:
+            return {"target": "msg_email_extractor.py::read_msg_format_mail", "inputs": {"stub MsOxMessage": "distinct property values", "body": body},
+                    "expected": want, "observed": got}
     return None
 
 
@@ -793,7 +835,7 @@ KNOWN = {"F21-mbox-no-attachments": w_mbox_attachments}
 FUNCTION_CHECKS = [
     ("MBOX_FROM_PATTERN", check_pattern), ("get_body_content", check_bodies),
     ("_split_mbox_messages", check_split), ("decode_header_value", check_headers), ("parse_email_address", check_headers),
-    ("iterate_supported_attachments", check_dispatch), ("_parse_single_recipient", check_single_recipient), ("read_msg_format_mail", check_msg_fixture),
+    ("iterate_supported_attachments", check_dispatch), ("_parse_single_recipient", check_single_recipient), ("read_msg_format_mail", check_msg_mapping), ("read_msg_format_mail", check_msg_fixture),
 ]
 CATEGORY_OF = [("parse_email_message", "mbox:"), ("get_body_content", "mbox:body"), ("read_mbox_format_mail", "mailbox:"), ("_read_eml_format", "eml:"),
                ("read_eml_format_mail", "eml:")]
@@ -814,7 +856,10 @@ def find(req):
                 return {"reproduced": True, "target": ob, "inputs": inputs, "expected": exp, "observed": obs}
     for key, fn in FUNCTION_CHECKS:
         if key in ob:
-            r = fn()
+            try:
+                r = fn()
+            except Exception:  # noqa  (the check does not fit the changed code, e.g. a renamed helper: no evidence either way)
+                continue
             if r is not None:
                 r["reproduced"] = True
                 return r
@@ -831,8 +876,9 @@ def find(req):
 
 
 def _recorded(cat):
-    """Categories that only restate a recorded finding (mbox results carry no attachments)."""
-    return cat in ("mbox:attachments", "agree:attachments")
+    """Categories that are not evidence against the glue: a recorded finding (mbox results carry no attachments), decoding
+    done by the library (`lib:`), artefacts of the stdlib generator (`~`)."""
+    return cat in ("mbox:attachments", "agree:attachments") or ":lib:" in cat or cat.startswith(("lib:", "~"))
 
 
 def rerun(stored):
